@@ -14,6 +14,7 @@ fn engines() -> Vec<(&'static [&'static str], Reg)> {
         (scn_lp::PROPERTIES, scn_lp::registry as Reg),
         (scn_competition::PROPERTIES, scn_competition::registry as Reg),
         (unitsim::PROPERTIES, unitsim::registry as Reg),
+        (scn_user::PROPERTIES, scn_user::registry as Reg),
     ]
 }
 
